@@ -367,7 +367,7 @@ func (e *Engine) CheckAll() {
 			// by-hash views run the same reader code as by-number views once the hash is resolved:
 			// read a rotating quarter of the universe there; same for the source node's
 			// historical views (the Finalise path writes the same state as Store)
-			sample := v.label == "hash" || (n.name == "src" && v.label == "num")
+			sample := !e.full && (v.label == "hash" || (n.name == "src" && v.label == "num"))
 			for qi, q := range qs {
 				if sample && (qi+len(e.steps)+v.n)%4 != 0 {
 					continue
